@@ -1505,8 +1505,16 @@ package badger
 // writeEntry: the record is encoded for the current write offset and the offset advances by
 // exactly the encoded length (so offsets, and therefore IVs, never repeat within a file).
 //@ func (*logFile).writeEntry
-//@   props C16 C23
+//@   props C16 C23 C09
 //@   light
 //@   assert[encode-at-write-offset] before call encodeEntry : arg0 == lf && arg2 == e && arg3 == lf.writeAt
 //@   assert[offset-advances] before call zeroNextEntry : lf.writeAt == old(lf.writeAt) + uint32(ret0(encodeEntry#1))
+//@   assert[record-copied-at-write-offset] before call copy : arg1 == ret(Bytes#1) && called(encodeEntry#1) && ret1(encodeEntry#1) == nil
+//@   assert[next-header-zeroed] before return : result == nil ==> called(zeroNextEntry#1)
 //@   assigns inferred
+
+// The header-sized area after the last record is zeroed, so a reader stops there (C09).
+//@ func (*logFile).zeroNextEntry
+//@   props C09 C16
+//@   light
+//@   assert[zero-after-last-record] before call ZeroOut : arg0 == lf.Data && arg1 == int(lf.writeAt) && arg2 == int(lf.writeAt + maxHeaderSize)
